@@ -113,6 +113,7 @@ def dense(cores, keep_graph=False, wide=True):
     cs = list(cores)
     if not keep_graph:
         cs = [c.detach() for c in cs]
+    cs = [c.resolve_conj() for c in cs]
     if wide:
         cs = [widen(c) for c in cs]
     nd = cs[0].dim()
